@@ -230,6 +230,8 @@ def lin_search(ctx, n_per_class):
             a, b = rng.uniform(-3, 3), rng.uniform(-3, 3)
             if rng.random() < 0.15:
                 b = 0.0              # pure scaling
+            if rng.random() < 0.3:   # all real scalings: also very small and very large factors
+                a = rng.choice([-1, 1]) * 10.0 ** rng.uniform(-8, 8)
             try:
                 dev = lin_eval(d, pts, field, a, b, e1, e2, use_mag)
             except Exception as e:   # pylint: disable=broad-except
